@@ -36,19 +36,30 @@ class Loop:
         pc = self.pc
         isptr = phi.ty.endswith('*')
         inits, steps = [], []
+        R = pc.phi_root(phi) if isptr else None
         for v, lab in phi.incoming:
             b = self.fn.blocks[lab]
-            if b in self.body:
-                if isptr:
-                    root, off = pc.ptr(v)
-                    steps.append(off if root == phi.res else None)
+            if isptr:
+                # pointer induction variable: value = byte offset from the root of the object it walks
+                root, off = pc.ptr(v)
+                if R is None or root != R:
+                    (steps if b in self.body else inits).append(None); continue
+                sz = pc.phi_scale(phi)
+                if b in self.body:
+                    c, rest = off.coeff_of(phi.res)
+                    ok = c is not None and c == Poly.const(sz) and all(x % sz == 0 for x in rest.values())
+                    steps.append(Poly({k_: x // sz for k_, x in rest.items()}) if ok else None)
                 else:
-                    p = pc.val(v)
-                    c, rest = p.coeff_of(phi.res)
-                    steps.append(rest if c is not None and c == Poly.const(1) else None)
+                    ok = all(x % sz == 0 for x in off.values())
+                    inits.append(Poly({k_: x // sz for k_, x in off.items()}) if ok else None)
+                continue
+            p = pc.val(v)
+            if b in self.body:
+                c, rest = p.coeff_of(phi.res)
+                steps.append(rest if c is not None and c == Poly.const(1) else None)
             else:
-                inits.append(pc.ptr(v) if isptr else pc.val(v))
-        init = inits[0] if inits and all(x == inits[0] for x in inits) else None
+                inits.append(p)
+        init = inits[0] if inits and all(x is not None and x == inits[0] for x in inits) else None
         step = steps[0] if steps and all(s is not None and s == steps[0] for s in steps) else None
         self._rec[phi.res] = (init, step)
         return init, step
@@ -120,15 +131,23 @@ class Loop:
                 continue
             for c, tv in implied_atoms(self.fn, t.ops[0], stay_truth):
                 pred = c.pred if tv else NEG[c.pred]
-                a, bb = self.pc.val(c.ops[0]), self.pc.val(c.ops[1])
+                if (c.ty or '').endswith('*'):
+                    # pointer comparison inside one object: compare the byte offsets
+                    (r1, a), (r2, bb) = self.pc.ptr(c.ops[0]), self.pc.ptr(c.ops[1])
+                    if r1 != r2:
+                        continue
+                else:
+                    a, bb = self.pc.val(c.ops[0]), self.pc.val(c.ops[1])
                 for lhs, rhs, pr in ((a, bb, pred), (bb, a, SWAP[pred])):
                     ats = [x for x in lhs.atoms() if x in ivs]
                     if len(ats) == 1 and self.invariant(rhs):
                         cf, rest = lhs.coeff_of(ats[0])
-                        if cf is not None and cf == Poly.const(1):
-                            # iv + rest <pred> rhs   =>  iv <pred> rhs - rest
-                            if self.invariant(rest):
-                                out.append(Guard(ats[0], pr, rhs - rest, b, (b, s), lhs))
+                        cv = cf.const_value() if cf is not None else None
+                        if cv is not None and cv >= 1 and self.invariant(rest):
+                            # c*iv + rest <pred> rhs   =>  iv <pred> (rhs - rest) / c   (only when that division is exact)
+                            bound = rhs - rest
+                            if all(x % cv == 0 for x in bound.values()):
+                                out.append(Guard(ats[0], pr, Poly({k_: x // cv for k_, x in bound.items()}), b, (b, s), lhs))
         return out
 
     def trip(self, guard):
@@ -136,7 +155,7 @@ class Loop:
         Valid when the guard is tested before the body uses the variable (header test) - callers check guard.block"""
         ivs = self.ivs()
         init, step = ivs[guard.iv]
-        if init is None or isinstance(init, tuple):
+        if init is None:
             return None
         s = step.const_value()
         if s is None:
@@ -155,6 +174,8 @@ class Loop:
         if p == 'ne' and s == -1:
             return init - guard.bound
         # strides other than one: number of values init, init+s, ... that satisfy the guard (distance taken non-negative)
+        if s > 1 and p in ('slt', 'ult', 'ne') and all(v % s == 0 for v in (guard.bound - init).values()):
+            return PolyCtx.div(guard.bound - init, s)          # distance is a whole number of steps
         if s > 1 and p in ('slt', 'ult'):
             return PolyCtx.div(guard.bound - init + Poly.const(s - 1), s)
         if s > 1 and p in ('sle', 'ule'):
@@ -175,19 +196,13 @@ class Loop:
                 if phi.res not in ivs:
                     return None
                 init, step = ivs[phi.res]
-                if init is None or isinstance(init, tuple):
+                if init is None:
                     return None
                 r = r.subst(phi.res, init + step * Poly.atom(T))
         return r
 
     def ptr_at_iteration(self, root, off):
         """pointer (root, off) as (root', off'(t)) with root' loop-invariant"""
-        ivs = self.ivs()
-        if root in ivs:
-            init, step = ivs[root]
-            if init is None or not isinstance(init, tuple):
-                return None
-            root, off = init[0], init[1] + step * Poly.atom(T) + off
         o2 = self.at_iteration(off)
         if o2 is None:
             return None
